@@ -39,7 +39,7 @@ ASSUMPTIONS = ['reference field arithmetic and Newton interpolation in vlib/sham
                'precondition of the property: 0 <= t < m < |F|; share coordinates are the party numbers 1..m',
                '`mpyc.thresha.secrets` is replaced by a recorder that feeds the coefficients given in the case',
                'numpy from the offline wheelhouse (/verif/.deps) for the array variants']
-CASE_TIMEOUT = 300
+CASE_TIMEOUT = 600
 
 boot(numpy=True)
 from mpyc import thresha  # noqa: E402
@@ -51,8 +51,11 @@ def budget(tier):
 
 
 # ------------------------------------------------------------------ cases
-def _exh_cost(q, t, m):
-    return q ** (t + 1) * q * sum(_binom(m, k) * k for k in range(t + 1, m + 1))
+def _exh_cost(q, t, m, ext):
+    """Rough CPU seconds of an exhaustive cell (measured: polynomial arithmetic is ~20x slower than ints)."""
+    npoly = q ** (t + 1)
+    work = npoly * q * sum(_binom(m, k) * k for k in range(t + 1, m + 1))
+    return npoly * (2.2e-3 if ext else 0.3e-3) + work * (35e-6 if ext else 1.6e-6)
 
 
 def _binom(n, k):
@@ -63,7 +66,7 @@ def _binom(n, k):
 
 
 def enumerate_cases(tier):
-    lim = 1.2e5 if tier == 'quick' else 6e6
+    lim = 1.0 if tier == 'quick' else 25
     specs = [{'p': p} for p in (2, 3, 5, 7, 11, 13)]
     for p, n in ((2, 2), (2, 3), (3, 2), (2, 4), (5, 2), (3, 3)):
         specs.append({'p': p, 'f': list(FS.smallest_irreducible(p, n))})
@@ -71,7 +74,7 @@ def enumerate_cases(tier):
         q = FS.order(spec)
         for m in range(1, q):
             for t in range(m):
-                if _exh_cost(q, t, m) <= lim:
+                if _exh_cost(q, t, m, 'f' in spec) <= lim:
                     yield {'mode': 'exh', 'field': spec, 't': t, 'm': m}
 
 
